@@ -95,7 +95,7 @@ def rt_of(line):
     return "?"
 
 
-def obs_path(p):
+def obs_path(p, deep=True):
   try:
     cp = p.captured_path
     walk = [(x.name, x.orient) for x in cp]
@@ -104,6 +104,8 @@ def obs_path(p):
   except Exception as e:
     return ("foreign", "{}: {}".format(type(e).__name__, str(e)[:80]))
   extra = None
+  if not deep:
+    return ("walk", walk, extra)
   try:
     cs = [(x.name, x.orient) for x in p.captured_segments]
     ce = [(x.name, x.orient) for x in p.captured_edges]
@@ -160,16 +162,23 @@ def obs_group_record(g, name, rt):
     tags[tn] = grp.field_to_s(tn, tag=True)
   unresolved = [i for i, it in enumerate(grp.items) if isinstance(
       it.line if isinstance(it, gfapy.OrientedLine) else it, str)]
-  text = [l for l in str(g).split("\n")
-          if l.startswith(rt + "\t" + name + "\t")]
+  text = [t for t in (str(x) for x in g.lines if rt_of(x) == rt)
+          if t.startswith(rt + "\t" + name + "\t")]
   return {"found": True, "records": len(recs), "items": items, "tags": tags,
           "text": text, "strings_left": unresolved,
           "same_object": len(recs) == 1 and recs[0] is grp}
 
 
 def snapshot(g):
+  """Cheap state fingerprint for the unchanged-after-refusal measurement:
+  the written form, the registered names and, per line, the names of the
+  lines that refer to it."""
   try:
-    return h([observe.obs(g, ordered_text=True), str(g)])
+    refs = []
+    for l in g.lines:
+      refs.append((str(l), sorted(str(getattr(r, "name", r))
+                                  for r in l.all_references)))
+    return h([str(g), sorted(g.names), sorted(refs)])
   except BaseException as e:
     return "<snapshot-error:{}>".format(type(e).__name__)
 
@@ -181,13 +190,15 @@ def fmt_walk(w):
 def fmt_verdict(v):
   if v[0] == "walks":
     return {"walks": sorted(fmt_walk(w) for w in v[1])}
+  if v[0] == "either":
+    return {"error, or one of the walks": sorted(fmt_walk(w) for w in v[1])}
   if v[0] == "sets":
     return {"sets": [{"segments": sorted(s), "edges": sorted(e)}
                      for s, e in v[1]]}
   return {v[0]: v[1]}
 
 
-def run_case(lines, targets):
+def run_case(lines, targets, deep=True):
   """Feed `lines` (arrival order) to gfapy and to the model; judge.
   targets: identifiers of the groups to resolve.
   Returns (problems, info): problems = [(clause, sig, expected, observed)]"""
@@ -311,15 +322,15 @@ def run_case(lines, targets):
                     repr(grp)))
       continue
     if rt == "O":
-      _judge_path(doc, name, grp, verr, probs, info)
+      _judge_path(doc, name, grp, verr, probs, info, deep)
     else:
       _judge_set(doc, name, grp, probs, info)
   return probs, info
 
 
-def _judge_path(doc, name, grp, verr, probs, info):
+def _judge_path(doc, name, grp, verr, probs, info, deep):
   v = R.captured(doc, name)
-  ob = obs_path(grp)
+  ob = obs_path(grp, deep)
   info["ops"] += 1
   if v[0] != "lenient":
     info["nontrivial"] = True
@@ -341,12 +352,12 @@ def _judge_path(doc, name, grp, verr, probs, info):
       probs.append(("invalid-walk", v[0], {"valid walk": True,
                     "model": fmt_verdict(v)},
                     {"captured_path": fmt_walk(walk), "problems": bad}))
-    elif v[0] == "walks" and tuple(walk) not in v[1]:
+    elif v[0] in ("walks", "either") and tuple(walk) not in v[1]:
       probs.append(("wrong-walk", "", fmt_verdict(v),
                     {"captured_path": fmt_walk(walk)}))
     info["outcome"].append("{}:walk/{}".format(v[0], len(walk)))
     # conversion to a GFA1 path uses the captured segments and edges
-    if not bad:
+    if not bad and deep:
       g1 = obs_gfa1(grp)
       info["ops"] += 1
       if g1[0] == "foreign":
@@ -363,7 +374,7 @@ def _judge_path(doc, name, grp, verr, probs, info):
       probs.append(("rejects-valid-path", ob[1], fmt_verdict(v),
                     {"raised": ob[1]}))
     info["outcome"].append("{}:{}".format(v[0], ob[1]))
-    if v[0] in ("error", "lenient"):
+    if v[0] in ("error", "lenient", "either"):
       key = "validate_on_unwalkable_path:" + ("silent" if verr is None
                                               else verr[1])
       info["notes"].append((key, None))
@@ -460,9 +471,10 @@ def standalone(lines, targets):
 
 def judge_case(gname, family, lines, targets):
   """-> (list of (sig, size, violation), info)"""
+  deep = not family.startswith(("Onest", "M2"))
   try:
     with guard(20):
-      probs, info = run_case(lines, targets)
+      probs, info = run_case(lines, targets, deep)
     if timed_out():
       raise HarnessTimeout()
   except HarnessTimeout:
@@ -541,23 +553,22 @@ def plan(tier):
       for i, od in enumerate(udefs):
         for j, ud in enumerate(u0defs):
           tasks.append(("U", gname, order, (od, i == 0, ud, j == 0)))
-  # multi-line definitions
+  # multi-line definitions: (item alphabet, tag modes, referrer line present)
   if q:
-    mo_full = []
-    mo_sub = ["a+", "b+", "e2-", "o1-"]
-    mu_full = []
-    mu_sub = ["a", "e1", "o1", "u0"]
+    mplan = {"O": [(["a+", "o1-"], "all", False),
+                   (["a+", "e2-", "o1-"], "core", True)],
+             "U": [(["a", "u0"], "all", False),
+                   (["a", "e1", "u0"], "core", True)]}
   else:
-    mo_full = BASE_ATOMS
-    mo_sub = ["a+", "b+", "c-", "e1+", "e2-", "o1-"]
-    mu_full = U_ATOMS
-    mu_sub = ["a", "e1", "g1", "o1", "u0"]
-  for rt, full, sub in (("O", mo_full, mo_sub), ("U", mu_full, mu_sub)):
-    for items in lists_upto(full, 3, 2):
-      tasks.append(("M2", "cyc", rt, (items, "core", False)))
-    for items in lists_upto(sub, 3, 2):
-      tasks.append(("M2", "cyc", rt, (items, "all", True)))
-    for items in lists_upto(sub, 3, 3):
+    mplan = {"O": [(BASE_ATOMS, "core", False),
+                   (["a+", "b+", "e2-", "o1-"], "all", True)],
+             "U": [(U_ATOMS, "core", False),
+                   (["a", "e1", "u0"], "all", True)]}
+  for rt in ("O", "U"):
+    for atoms, modes, referrer in mplan[rt]:
+      for items in lists_upto(atoms, 3, 2):
+        tasks.append(("M2", "cyc", rt, (items, modes, referrer)))
+    for items in lists_upto(mplan[rt][-1][0], 3, 3):
       tasks.append(("M3", "cyc", rt, items))
   return tasks
 
@@ -629,7 +640,7 @@ def cases_of(task):
                                     T(["O", "p", " ".join(items)])]
       if order == "rev":
         lines = lines[::-1]
-      yield (fam, gname, lines, ["o1", "p"])
+      yield (fam, gname, lines, ["p"])   # o1 alone is a case of Oflat
   elif fam == "U":
     order = task[2]
     od, od_first, ud, ud_first = task[3]
